@@ -149,8 +149,39 @@ def handleInventory (args : List Sexp) : Sexp :=
 
 /-- the three positions of the harness's literal document: QStringLiteral in a binding, narrow in translate(), narrow
     in qDebug() — all three are printed with `{:?}` -/
+private def argKind? : Sexp → Option ArgKind
+  | .atom "prim" => some .prim
+  | .atom "enum" => some .enum
+  | .atom "pointer" => some .pointer
+  | .atom "qstring" => some .qstring
+  | .atom "qvariant" => some .qvariant
+  | .atom "cls" => some .cls
+  | .atom "list" => some .list
+  | _ => none
+
+private def sigUse? : Sexp → Option SignalUse
+  | .list (.atom "sig" :: .str c :: .str n :: as) =>
+    match Sexp.mapM? (fun a => match a with
+        | .list [.atom "arg", .str t, k] => (argKind? k).map (fun k => (t, k))
+        | _ => none) as with
+    | some args => some { cls := c, name := n, args := args }
+    | none => none
+  | _ => none
+
+/-- `(c16-lit sig "qml" "Type" (sigs (sig "Class" "name" (arg "T" kind)…)…))` → `(overloads "QOverload<…>::of(&…)"…)`;
+    `(c16-lit num "qml" pinf|ninf|nan)` → `(num "spelling")`; `(c16-lit "s" style)` → the literal spellings -/
 def handleLit (args : List Sexp) : Sexp :=
   match args with
+  | [.atom "sig", _, _, .list (.atom "sigs" :: ss)] =>
+    match Sexp.mapM? sigUse? ss with
+    | some us => .list (.atom "overloads" :: us.map (fun u => Sexp.str (formatSignalPointer u)))
+    | none => .list [.atom "bad-request"]
+  | [.atom "num", _, .atom k] =>
+    let nf := if k == "pinf" then some NonFinite.posInf else if k == "ninf" then some NonFinite.negInf
+      else if k == "nan" then some NonFinite.nan else none
+    match nf with
+    | some x => .list [.atom "num", .str (formatNonFinite x)]
+    | none => .list [.atom "bad-request"]
   | .str s :: _ =>
     let sp := formatStringLiteral s
     .list [.atom "lit", .list [.atom "q", .str sp], .list [.atom "c", .str sp], .list [.atom "c", .str sp]]
